@@ -2,7 +2,8 @@ package main
 
 func init() {
 	props["C02"] = &propImpl{files: []string{"h_lib.go", "h_pipe.go"}, run: runC02}
-	props["C04"] = &propImpl{files: []string{"h_lib.go", "h_pipe.go", "h_units.go", "h_step.go"}, run: runC04}
+	props["C04"] = &propImpl{files: []string{"h_lib.go", "h_pipe.go", "h_units.go", "h_step.go"}, run: runC04,
+		fallbackFiles: []string{"h_lib.go", "h_pipe.go"}, hooks: []string{"internal/scanner", "internal/position", "pkg/token", "pkg/position"}, fallbackRun: runC04}
 	props["C06"] = &propImpl{files: []string{"h_lib.go", "h_pipe.go"}, run: runC06}
 }
 
